@@ -790,10 +790,13 @@ class FreqTransform(Stream):
             if not np.all(d <= 1e-9 * su * max(1.0, sr)):
                 i = int(np.argmax(~(d <= 1e-9 * su * max(1.0, sr))))
                 return 'frequency column %d sample %d: implementation %r, model %r' % (j, i, float(iff[i]), float(mif[i]))
-            # amplitude: exact, sample by sample; NaN in the implementation <=> `none` in the model (all n samples of a column
+            # amplitude: sample by sample; NaN in the implementation <=> `none` in the model (all n samples of a column
             # without upper envelope, C09.ft_nht_nonoscillatory; nowhere else)
-            if len(ia) != len(mia) or not np.array_equal(ia, mia, equal_nan=True):
-                bad = ~((ia == mia) | (np.isnan(ia) & np.isnan(mia))) if len(ia) == len(mia) else np.ones(1, bool)
+            # (within rounding: |z| may be evaluated as abs(z) or hypot(re, im), which differ in the last place)
+            same = (len(ia) == len(mia)) and bool(np.all((np.abs(ia - mia) <= 1e-12 * np.maximum(np.abs(ia), np.abs(mia)))
+                                                          | (np.isnan(ia) & np.isnan(mia))))
+            if not same:
+                bad = ~((np.abs(ia - mia) <= 1e-12 * np.maximum(np.abs(ia), np.abs(mia))) | (np.isnan(ia) & np.isnan(mia))) if len(ia) == len(mia) else np.ones(1, bool)
                 i = int(np.argmax(bad))
                 return 'amplitude column %d sample %d: implementation %r, model %r' % (j, i, float(ia[i]), float(mia[i]))
         if out['ia_inf']:
